@@ -101,6 +101,7 @@ static Token *new_eof(Token *tok) {
   Token *t = copy_token(tok);
   t->kind = TK_EOF;
   t->len = 0;
+  t->at_bol = true; // the end of a token list also ends its last line
   return t;
 }
 
